@@ -156,27 +156,34 @@ def Board.corrupt (b : Board) : Board :=
     | some o => b.setOam o
     | none => { b with crashed := true }
 
+/-- `BitVec.ofNat 8 n` without the run-time `2 ^ 8` (see `byteOf_eq`) -/
+def byteOf (n : Nat) : BitVec 8 := BitVec.ofNatLT (n % 256) (Nat.mod_lt _ (by decide))
+
 instance : Cpu.Bus Board where
-  read b a := let r := b.read a.toNat; (BitVec.ofNat 8 r.1, r.2)
+  read b a := let r := b.read a.toNat; (byteOf r.1, r.2)
   write b a v := b.write a.toNat v.toNat
   trigger b a := b.setOam (Oam.triggerWriteCorruption b.m.oam a)
   corrupt b := b.corrupt
   ime b := b.m.intr.ime
   setIme b v := b.setIntr { b.m.intr with ime := v }
-  ie b := BitVec.ofNat 8 b.m.intr.ie
-  iflag b := BitVec.ofNat 8 b.m.intr.ifl
+  ie b := byteOf b.m.intr.ie
+  iflag b := byteOf b.m.intr.ifl
   clearIf b k := b.setIntr { b.m.intr with ifl := clearBit b.m.intr.ifl k }
 
 /-! #### the per-cycle calls of `runFrame` after the CPU -/
 
 def toByte (n : Nat) : Render.Byte := ⟨n % 256, Nat.mod_lt _ (by decide)⟩
 
+/-- `Machine.palRead` / `Machine.objPalRead` with multiplications for the shifts (see `palByte_eq`) -/
+def palByte (p : Pal) : Nat := (p.c3 * 64 % 256 + p.c2 * 16 % 256 + p.c1 * 4 % 256 + p.c0) % 256
+def objPalByte (p : Pal) : Nat := (p.c3 * 64 % 256 + p.c2 * 16 % 256 + p.c1 * 4 % 256) % 256
+
 /-- what the pixel pipeline reads in this cycle: the video registers as they read back, VRAM, and OAM
     through `oam.PPURead` (0xff while a DMA transfer runs) -/
 def sceneOf (m : Machine) : Render.Scene :=
   { lcdc := toByte (Lcd.readLCDC m.ppu), scx := toByte m.regs.scx, scy := toByte m.regs.scy,
-    wx := toByte m.regs.wx, wy := toByte m.regs.wy, bgp := toByte (palRead m.regs.bgp),
-    obp0 := toByte (objPalRead m.regs.obp0), obp1 := toByte (objPalRead m.regs.obp1),
+    wx := toByte m.regs.wx, wy := toByte m.regs.wy, bgp := toByte (palByte m.regs.bgp),
+    obp0 := toByte (objPalByte m.regs.obp0), obp1 := toByte (objPalByte m.regs.obp1),
     vram := fun i => toByte (m.vram[i]?.getD 0),
     oam := if m.oam.dmaRunning then fun _ => toByte 0xff else fun i => toByte (m.oam.oam[i]?.getD 0).toNat }
 
